@@ -12,6 +12,7 @@
                    default build, where toml::Map is a BTreeMap);
      wf_tv       : keys of every map are distinct (an invariant of toml::Map). *)
 From TV Require Import Base.Prelude Spec.Ordered Model.TomlValue.
+From Coq Require Import Permutation.
 
 (* ------------------------------------------------------------------------------------------ *)
 (** * what kind of entry a key of a table is, in a document *)
@@ -314,4 +315,45 @@ Fixpoint tv_eqb (a b : tv) : bool :=
        | _, _ => false
        end) m m'
   | _, _ => false
+  end.
+
+(* ------------------------------------------------------------------------------------------ *)
+(** * vocabulary of the property statements (Props/C17.v) *)
+
+(* q is strictly below p *)
+Definition strict_prefix (p q : path) : Prop := exists k r, q = p ++ k :: r.
+
+(* the kind of section a table written at path p gets (a = it is an element of an array of tables) *)
+Definition kind_of (p : path) (a : bool) : skind :=
+  match p with [] => KRoot | _ :: _ => if a then KArr else KStd end.
+
+(* a BTreeMap-backed value: every map in ascending key order *)
+Definition sorted_tv (v : tv) : Prop := sort_tv v = v.
+(* what a value of the given Map configuration satisfies *)
+Definition order_inv (o : morder) (m : list (bytes * tv)) : Prop :=
+  match o with OSorted => sorted_tv (TTab m) | OInsertion => True end.
+
+(* w is v with the entries of any of its maps, at any depth, permuted *)
+Inductive perm_tv : tv -> tv -> Prop :=
+| PLeaf t : perm_tv (TLeaf t) (TLeaf t)
+| PArr l l' : Forall2 perm_tv l l' -> perm_tv (TArr l) (TArr l')
+| PTab m m1 m' :
+    Permutation m m1 ->
+    Forall2 (fun a b => fst a = fst b /\ perm_tv (snd a) (snd b)) m1 m' ->
+    perm_tv (TTab m) (TTab m').
+
+(* who hands the entries of the tables to the serializer *)
+Inductive writer :=
+| WValue     (* toml::Value: `impl Serialize for Value`, three loops at every level *)
+| WTable     (* toml::Table at the root: map order there, Values below *)
+| WStruct.   (* a derived struct / any impl that keeps its own order, at every level (ser_plain) *)
+Definition w_three (w : writer) : bool := match w with WValue => true | _ => false end.
+Definition w_tn (w : writer) : bool := match w with WStruct => false | _ => true end.
+
+(* the document the model of the crates writes *)
+Definition emit_doc (w : writer) (ml : bool) (m : list (bytes * tv)) : list section :=
+  match w with
+  | WValue => emit_value_doc ml m
+  | WTable => emit_table_doc ml m
+  | WStruct => emit_struct_doc ml m
   end.
